@@ -127,6 +127,9 @@ pub struct World {
     pub short_writes: usize,
     /// (log length, read_pos) snapshots taken whenever the reader had to park
     pub parks: Vec<(usize, usize)>,
+    /// index of the task poll (set by the executor loop) in which each park happened
+    pub park_polls: Vec<usize>,
+    pub cur_poll: usize,
 }
 
 impl World {
@@ -141,6 +144,8 @@ impl World {
             scan_pos: 0, ends_seen: BTreeMap::new(), mgmt_replies: 0,
             transport_events: 0, saw_read_pending: false, saw_write_pending: false, short_reads: 0, short_writes: 0,
             parks: Vec::new(),
+            park_polls: Vec::new(),
+            cur_poll: 0,
         };
         w.peer_update();
         w
@@ -253,6 +258,8 @@ impl AsyncRead for MockReader {
             // Nothing to read right now: the task is about to wait for the client.
             let snap = (w.log.len(), w.read_pos);
             w.parks.push(snap);
+            let cp = w.cur_poll;
+            w.park_polls.push(cp);
             if w.releasable > w.released {
                 // the peer has reacted to the server's output meanwhile: the data arrives after
                 // this one not-ready result
